@@ -3,8 +3,10 @@
    universally quantified; the pipeline statements hold for EVERY interleaving of the C13
    transition system (a superset of the schedules of the real thread pools). *)
 From Verif.Base Require Import Tactics.
+From Verif.C06 Require Import Extracted Model Spec.
+From Verif.C11 Require Model.
 From Verif.C13 Require Import Extracted Model Proofs Proofs2.
-From Verif.C07 Require Import Extracted Model Spec Proofs Proofs2 Proofs3 Proofs4.
+From Verif.C07 Require Import Extracted Model Spec Proofs Proofs2 Proofs3 Proofs4 Proofs5 Proofs6 Proofs7 ModelP Proofs8.
 Local Open Scope nat_scope.
 
 (* Facts read from the source on every run: the archiver gates are `!has_data` / `!has_tree`,
@@ -178,6 +180,202 @@ Theorem file_step_sends : forall tid g a nm m (h : bytes -> id) (chunks : list b
   a_sent a' = a_sent a ++ map (fun c => (Data, c)) (file_sends h g chunks).
 Proof. exact file_step_sends_lemma. Qed.
 Print Assumptions file_step_sends.
+
+(* ================================================================== the REAL chunkers (C06)
+   C06 proves that the ChunkIter model (rabin.rs statement by statement: read buffer, window
+   prefill, rolling hash) yields `cuts p s` for every read schedule, size hint and arithmetic mode
+   when the parameters pass check_rabin_params.  Here the two abstract hypotheses are discharged
+   for `cuts p` ... *)
+Theorem rabin_chunker_meets_hypotheses : forall p, params_ok p = true ->
+  chunker_partition (cuts p) /\ resync_after_common_cut (cuts p).
+Proof. intros p H. split; [exact (rabin_partition p H) | exact (rabin_resync p H)]. Qed.
+Print Assumptions rabin_chunker_meets_hypotheses.
+
+(* ... so for ACCEPTED Rabin parameters, any polynomial and EVERY pair of read schedules: the chunk
+   lists the iterator produces for the old and the edited file differ only between the last cut
+   before the edit and the first common cut after it ... *)
+Theorem edit_locality_rabin : forall P avg mn mx, rabin_accepts avg mn mx = true ->
+  let p := {| c_poly := P; c_avg := avg; c_min := mn; c_max := mx |} in
+  forall md1 hint1 sched1 md2 hint2 sched2 pre P' X Y S1 S2 rest la ra lb rb ca cb,
+  let A := concat pre ++ P' ++ X ++ S1 ++ S2 in
+  let B := concat pre ++ P' ++ Y ++ S1 ++ S2 in
+  chunks_impl md1 p hint1 A sched1 = Ok ca -> chunks_impl md2 p hint2 B sched2 = Ok cb ->
+  ca = pre ++ rest -> P' ++ X ++ S1 ++ S2 <> [] ->
+  ca = la ++ ra -> concat la = concat pre ++ P' ++ X ++ S1 ->
+  cb = lb ++ rb -> concat lb = concat pre ++ P' ++ Y ++ S1 ->
+  exists ma mb suf,
+    ca = pre ++ ma ++ suf /\ cb = pre ++ mb ++ suf /\
+    concat ma = P' ++ X ++ S1 /\ concat mb = P' ++ Y ++ S1 /\
+    forall md hint sched, chunks_impl md p hint S2 sched = Ok suf.
+Proof.
+  intros P avg mn mx H p. exact (edit_locality_rabin_lemma p (Verif.C06.Proofs4.accepted_params_ok_lemma P avg mn mx H)).
+Qed.
+Print Assumptions edit_locality_rabin.
+
+(* ... only those chunks are handed to the data packer ... *)
+Theorem edit_uploads_only_disturbed_rabin : forall P avg mn mx, rabin_accepts avg mn mx = true ->
+  let p := {| c_poly := P; c_avg := avg; c_min := mn; c_max := mx |} in
+  forall (h : list N -> N) (g : gindex) md1 hint1 sched1 md2 hint2 sched2 pre P' X Y S1 S2 rest la ra lb rb ca cb,
+  let A := concat pre ++ P' ++ X ++ S1 ++ S2 in
+  let B := concat pre ++ P' ++ Y ++ S1 ++ S2 in
+  chunks_impl md1 p hint1 A sched1 = Ok ca -> chunks_impl md2 p hint2 B sched2 = Ok cb ->
+  ca = pre ++ rest -> P' ++ X ++ S1 ++ S2 <> [] ->
+  ca = la ++ ra -> concat la = concat pre ++ P' ++ X ++ S1 ->
+  cb = lb ++ rb -> concat lb = concat pre ++ P' ++ Y ++ S1 ->
+  (forall c, In c ca -> ghas g Data (h c) = true) ->
+  exists mb suf, cb = pre ++ mb ++ suf /\ concat mb = P' ++ Y ++ S1 /\
+                 forall i, In i (file_sends h g cb) -> In i (map h mb).
+Proof.
+  intros P avg mn mx H p. exact (edit_uploads_only_disturbed_rabin_lemma p (Verif.C06.Proofs4.accepted_params_ok_lemma P avg mn mx H)).
+Qed.
+Print Assumptions edit_uploads_only_disturbed_rabin.
+
+(* ... and in a whole backup in which this one file changed, no other DATA blob is handed over. *)
+Theorem edit_backup_uploads_only_disturbed_rabin : forall P avg mn mx, rabin_accepts avg mn mx = true ->
+  let p := {| c_poly := P; c_avg := avg; c_min := mn; c_max := mx |} in
+  forall (tid : list entry -> N) (h : list N -> N) (g : gindex)
+         md1 hint1 sched1 md2 hint2 sched2 pre P' X Y S1 S2 rest la ra lb rb ca cb its1 its2 nm m r,
+  let A := concat pre ++ P' ++ X ++ S1 ++ S2 in
+  let B := concat pre ++ P' ++ Y ++ S1 ++ S2 in
+  chunks_impl md1 p hint1 A sched1 = Ok ca -> chunks_impl md2 p hint2 B sched2 = Ok cb ->
+  ca = pre ++ rest -> P' ++ X ++ S1 ++ S2 <> [] ->
+  ca = la ++ ra -> concat la = concat pre ++ P' ++ X ++ S1 ->
+  cb = lb ++ rb -> concat lb = concat pre ++ P' ++ Y ++ S1 ->
+  (forall c, In c ca -> ghas g Data (h c) = true) ->
+  (forall c, In c (data_of (its1 ++ its2)) -> ghas g Data c = true) ->
+  archive tid g (its1 ++ Other nm m (map h cb) :: its2) = Some r ->
+  exists mb suf, cb = pre ++ mb ++ suf /\ concat mb = P' ++ Y ++ S1 /\
+                 forall c, In (Data, c) (r_sent r) -> In c (map h mb).
+Proof.
+  intros P avg mn mx H p. exact (edit_backup_uploads_only_disturbed_rabin_lemma p (Verif.C06.Proofs4.accepted_params_ok_lemma P avg mn mx H)).
+Qed.
+Print Assumptions edit_backup_uploads_only_disturbed_rabin.
+
+(* the hypotheses are satisfiable with real parameters (restic's documented polynomial, min = avg =
+   4096, max = 8192): three chunks, one byte of the middle one overwritten, first and last kept *)
+Theorem edit_locality_rabin_inhabited :
+  params_ok rp = true /\
+  cuts rp (concat [rz] ++ repeat 0%N 1904 ++ [0%N] ++ repeat 0%N 2191 ++ rz) = [rz] ++ [rm_old] ++ [rz] /\
+  cuts rp (concat [rz] ++ repeat 0%N 1904 ++ [1%N] ++ repeat 0%N 2191 ++ rz) = [rz] ++ [rm_new] ++ [rz].
+Proof. exact rabin_example_lemma. Qed.
+Print Assumptions edit_locality_rabin_inhabited.
+
+(* FIXED-SIZE chunker: its cuts depend on the NUMBER of bytes since the previous cut only, so it
+   meets the two hypotheses and the general theorem applies (a common cut behind the edit exists
+   where the alignment of both files agrees; the end of the file always is one) ... *)
+Theorem fixed_chunker_meets_hypotheses : forall size, fixed_accepts size = true ->
+  chunker_partition (fixed_cuts size) /\ resync_after_common_cut (fixed_cuts size).
+Proof.
+  intros size H. pose proof (Verif.C06.Proofs4.accepted_fixed_size_pos size H) as Hs.
+  split; [exact (fixed_partition size Hs) | exact (fixed_resync size Hs)].
+Qed.
+Print Assumptions fixed_chunker_meets_hypotheses.
+
+Theorem edit_locality_fixed : forall size, fixed_accepts size = true ->
+  forall hint1 sched1 hint2 sched2 pre P' X Y S1 S2 rest la ra lb rb ca cb,
+  let A := concat pre ++ P' ++ X ++ S1 ++ S2 in
+  let B := concat pre ++ P' ++ Y ++ S1 ++ S2 in
+  fixed_impl size hint1 A sched1 = Some ca -> fixed_impl size hint2 B sched2 = Some cb ->
+  ca = pre ++ rest -> P' ++ X ++ S1 ++ S2 <> [] ->
+  ca = la ++ ra -> concat la = concat pre ++ P' ++ X ++ S1 ->
+  cb = lb ++ rb -> concat lb = concat pre ++ P' ++ Y ++ S1 ->
+  exists ma mb suf,
+    ca = pre ++ ma ++ suf /\ cb = pre ++ mb ++ suf /\
+    concat ma = P' ++ X ++ S1 /\ concat mb = P' ++ Y ++ S1 /\
+    forall hint sched, fixed_impl size hint S2 sched = Some suf.
+Proof.
+  intros size H. exact (edit_locality_fixed_lemma size (Verif.C06.Proofs4.accepted_fixed_size_pos size H)).
+Qed.
+Print Assumptions edit_locality_fixed.
+
+(* ... OVERWRITE and APPEND keep the alignment: with u = the whole chunks before the edit and m / m'
+   the equally long middle (rest of the chunk the edit starts in, the edit, up to the next multiple
+   of the chunk size - or everything up to the end of the file), exactly the chunks of the middle
+   are replaced ... *)
+Theorem fixed_size_overwrite_local : forall size, fixed_accepts size = true ->
+  forall k j (u m m' v : list N) hint1 sched1 hint2 sched2,
+  nlen u = (N.of_nat k * size)%N -> nlen m = nlen m' -> (nlen m = (N.of_nat j * size)%N \/ v = []) ->
+  fixed_impl size hint1 (u ++ m ++ v) sched1 = Some (fixed_cuts size u ++ fixed_cuts size m ++ fixed_cuts size v) /\
+  fixed_impl size hint2 (u ++ m' ++ v) sched2 = Some (fixed_cuts size u ++ fixed_cuts size m' ++ fixed_cuts size v) /\
+  concat (fixed_cuts size m) = m /\ concat (fixed_cuts size m') = m'.
+Proof.
+  intros size H. exact (fixed_size_overwrite_local_impl_lemma size (Verif.C06.Proofs4.accepted_fixed_size_pos size H)).
+Qed.
+Print Assumptions fixed_size_overwrite_local.
+
+(* ... whereas an INSERT or DELETE whose length is not a multiple of the chunk size shifts every
+   later boundary (no common cut but the end): one byte in front, all four chunks change. *)
+Theorem fixed_size_insert_shifts :
+  fixed_cuts 2 [1;2;3;4;5;6;7]%N = [[1;2];[3;4];[5;6];[7]]%N /\
+  fixed_cuts 2 [9;1;2;3;4;5;6;7]%N = [[9;1];[2;3];[4;5];[6;7]]%N.
+Proof. exact fixed_size_insert_shifts_lemma. Qed.
+Print Assumptions fixed_size_insert_shifts.
+
+(* ================================================================== index entries are backed by pack files
+   The writer thread of C13's transition system uploads a pack (WriteP) and only then hands it to the
+   indexer (IndexP); the order of `write_bytes` and `indexer.add` is regenerated from
+   FileWriterHandle::process / index and Actor::new on every run. *)
+Theorem writer_order_matches_source : pack_written_before_indexed = true.
+Proof. exact writer_order_lemma. Qed.
+Print Assumptions writer_order_matches_source.
+
+(* every pack the indexer of a run holds - at every moment of every interleaving - is a pack file
+   that was written before ... *)
+Theorem indexed_implies_written : forall es s t pk,
+  run init es = Some s -> In (t, pk) (idx s) -> In (t, pk) (written s).
+Proof. exact indexed_implies_written_lemma. Qed.
+Print Assumptions indexed_implies_written.
+
+(* ... so "the reloaded index has the blob" means: the loaded index had it, or it lies in a written
+   pack - the premise on which skipping a chunk (`!has_data`) is sound. *)
+Theorem reloaded_index_is_backed : forall g es s t i,
+  run init es = Some s -> In (t, i) (reload g s) ->
+  In (t, i) g \/ exists pk, In (t, pk) (written s) /\ In i pk.
+Proof. exact reload_backed_lemma. Qed.
+Print Assumptions reloaded_index_is_backed.
+
+(* ================================================================== parent-based backups (C11)
+   `archive_p`: a file whose parent node matched is not read and nothing is offered for it; a tree
+   equal to its matched parent's subtree takes C11's unchanged-tree short-cut.  If reused content is
+   in the index, the result - tree id, blob list AND what is handed to the packers - is that of the
+   backup that reads every file ... *)
+Theorem parent_based_archive_equals_full : forall tid g rootpar pits,
+  reuse_indexed g pits -> archive_p tid g rootpar pits = archive tid g (map erase pits).
+Proof. exact parent_archive_equals_full_lemma. Qed.
+Print Assumptions parent_based_archive_equals_full.
+
+(* ... the premise is what C11's Parent::process guarantees when its index is the loaded index ... *)
+Theorem reused_content_is_indexed : forall o g P nd P' nd' u,
+  Verif.C11.Model.process_other o (fun c => ghas g Data c) P nd = (P', nd', PMatched u) ->
+  forall c, In c (Verif.C11.Model.content_ids nd') -> ghas g Data c = true.
+Proof. exact reused_content_is_indexed_lemma. Qed.
+Print Assumptions reused_content_is_indexed.
+
+(* ... hence uploads_exactly_new for parent-based backups ... *)
+Theorem uploads_exactly_new_parent_based : forall tid g rootpar pits es s r t i,
+  reuse_indexed g pits -> archive_p tid g rootpar pits = Some r ->
+  Permutation (sends es) (r_sent r) -> run init es = Some s -> final s = true ->
+  (In (t, i) (sends es) <-> In (t, i) (r_all r) /\ ghas g t i = false) /\
+  (stored s t i <-> In (t, i) (r_all r) /\ ghas g t i = false).
+Proof. exact uploads_exactly_new_parent_based_lemma. Qed.
+Print Assumptions uploads_exactly_new_parent_based.
+
+(* ... and rebackup_adds_nothing under ANY parent classification of the same source. *)
+Theorem rebackup_adds_nothing_parent_based : forall tid g rootpar pits es s r,
+  reuse_indexed g pits -> archive_p tid g rootpar pits = Some r ->
+  Permutation (sends es) (r_sent r) -> run init es = Some s -> final s = true ->
+  forall rootpar' pits', map erase pits' = map erase pits ->
+  exists r', archive_p tid (reload g s) rootpar' pits' = Some r' /\ r_sent r' = [] /\
+             r_root r' = r_root r /\ r_all r' = r_all r.
+Proof. exact rebackup_parent_based_lemma. Qed.
+Print Assumptions rebackup_adds_nothing_parent_based.
+
+Theorem parent_based_inhabited :
+  reuse_indexed ex_pindex ex_pitems /\
+  archive_p ex_tid ex_pindex PNotFound ex_pitems = archive ex_tid ex_pindex (map erase ex_pitems) /\
+  option_map r_sent (archive_p ex_tid ex_pindex PNotFound ex_pitems) = Some [(Data, 9%N); (Tree, 103%N); (Tree, 101%N)].
+Proof. exact parent_example_lemma. Qed.
+Print Assumptions parent_based_inhabited.
 
 (* ------------------------------------------------------------------ non-vacuity *)
 (* the chunker hypotheses are satisfiable by a content-defined chunker (cut after a zero byte) *)
